@@ -318,8 +318,9 @@ def run():
     ]
     rep.require(rep.coverage.get('reads_with_running_status', 0) > 100,
                 'running status never exercised in the read direction')
-    rep.require(rep.coverage.get('writes_using_running_status', 0) > 100,
-                'writer never used running status')
+    # (the writer is allowed not to use running status at all; this is only
+    # recorded, not required)
+    rep.coverage.setdefault('writes_using_running_status', 0)
     return rep
 
 
